@@ -380,6 +380,11 @@ class FilesystemStorageBackend(StorageBackendBase):
             config["memory_cache_mb"] = (
                 self._memory_cache.memory_cache_bytes / 1024 / 1024
             )
+        # The codec decides how results are read back: keep it with the storage configuration
+        if self.config.get("codec") is not None:
+            config["codec"] = self.config["codec"]
+        if self.config.get("codecConfig") is not None:
+            config["codecConfig"] = self.config["codecConfig"]
         return config
 
 
